@@ -74,6 +74,7 @@ var tokenCountRe = regexp.MustCompile(`(?m)^TokenCount: (\d+)$`)
 
 // maintenance performs one step at quiescence, checks its effect on the record population and moves the oracle's state.
 func (h *history) maintenance(name string) {
+	violation := func(sig string, d interface{}) { h.r.Violation(storeSig(h.p.kind.name(), sig), d) } // Redis variants: signatures start with "redis "
 	r := h.r
 	spec := maintSpecs[name]
 	beforeTotal, beforeDisabled, err := h.rig.recordCount()
@@ -87,12 +88,23 @@ func (h *history) maintenance(name string) {
 	case name == "reopen":
 		via = "reopen"
 		h.rig.close()
-		if err := h.rig.open(); err != nil {
-			r.Inconclusive(fmt.Sprintf("history %d: BoltDB file could not be reopened: %v", h.p.idx, err))
+		err := h.rig.open()
+		for _, pr := range h.rig.peers { // Redis: every connection pool is closed and opened again
+			pr.close()
+			if err == nil {
+				err = pr.open()
+			}
+		}
+		if err != nil {
+			r.Inconclusive(fmt.Sprintf("history %d: %s store could not be reopened: %v", h.p.idx, h.p.kind.name(), err))
 			h.dead = true
 			return
 		}
-		r.Count("boltdb_reopened", 1)
+		if h.p.kind.redis {
+			r.Count("redis_connection_pools_reopened", int64(1+len(h.rig.peers)))
+		} else {
+			r.Count("boltdb_reopened", 1)
+		}
 	case h.p.cli:
 		via = "cli"
 		h.rig.close()
@@ -120,7 +132,8 @@ func (h *history) maintenance(name string) {
 			}
 		}
 	default:
-		err := h.rig.store.VisitMetadata(func(_ int, md common.TokenMetadata) (common.TokenAction, error) { return spec.visit(md), nil })
+		// Redis histories: maintenance comes through the last connection pool (acra-tokens is a process of its own)
+		err := h.rigOf(len(h.rig.peers)).store.VisitMetadata(func(_ int, md common.TokenMetadata) (common.TokenAction, error) { return spec.visit(md), nil })
 		if err != nil {
 			r.Inconclusive(fmt.Sprintf("history %d: metadata visit for %s failed: %v", h.p.idx, name, err))
 			h.dead = true
@@ -147,7 +160,7 @@ func (h *history) maintenance(name string) {
 		wantTotal, wantDisabled, expect = beforeTotal-beforeDisabled, 0, "remove exactly the disabled records"
 	}
 	if total != wantTotal || disabled != wantDisabled {
-		r.Violation(fmt.Sprintf("maintenance effect: %s via=%s must %s", name, via, expect),
+		violation(fmt.Sprintf("maintenance effect: %s via=%s must %s", name, via, expect),
 			h.detail(nil, map[string]interface{}{"argv": spec.argv, "records_before": beforeTotal, "disabled_before": beforeDisabled, "records_after": total, "disabled_after": disabled, "expected_records": wantTotal, "expected_disabled": wantDisabled}))
 		h.dead = true
 		return
